@@ -104,6 +104,16 @@ Theorem c11_boundary_is_live :
 Proof. exact boundary_is_live. Qed.
 Print Assumptions c11_boundary_is_live.
 
+(* back ends with a separate search index (storage.Recovery, e.g. cosmosdb): coercion.New calls the
+   Vault's Recovery() before execute.New, so whatever stale entries the index held ([v_stale]: finished
+   plans still listed as Running), the outcome is that of [select] on the plan rows - to which every
+   theorem above applies: such a plan is not a candidate, is not executed and is not modified *)
+Theorem c11_storage_recovery_first :
+  forall (now stamp maxAge : Z) (recovery : bool) (v : vault),
+    open_workstream now stamp maxAge recovery true v = select now stamp maxAge recovery (v_plans v).
+Proof. exact open_workstream_repairs_first. Qed.
+Print Assumptions c11_storage_recovery_first.
+
 (* the monitor of the correspondence check decides the specification's predicates *)
 Theorem c11_monitor_predicates :
   forall (now maxAge : Z) (p : plan),
@@ -130,6 +140,13 @@ Proof. vm_compute. split; reflexivity. Qed.
 Example c11_ex_attempts_are_activity :
   last_update ex_retry = 9990%Z /\ stale ex_now ex_maxage ex_retry = false.
 Proof. vm_compute. split; reflexivity. Qed.
+(* without the repair (seeded change C11-d) a finished plan listed by the stale index is executed again
+   (70) or rewritten as Failed / ExceedRecovery (20) *)
+Example c11_ex_unrepaired_index_refutes :
+  snd (open_workstream_late ex_now ex_stamp ex_maxage true ex_vault) = [40%N; 60%N; 70%N] /\
+  nth 1 (fst (open_workstream_late ex_now ex_stamp ex_maxage true ex_vault)) ex_fresh = close_plan ex_stamp ex_done /\
+  close_plan ex_stamp ex_done <> ex_done.
+Proof. exact ex_vault_unrepaired_refutes. Qed.
 Example c11_ex_r1_plan_row_only_leaves_running :
   running_rows (persist [ex_aged] (writes_plan_only (age_out ex_stamp ex_aged))) = 5 /\
   running_rows (persist [ex_aged] (writes_aged (age_out ex_stamp ex_aged))) = 0.
